@@ -99,12 +99,15 @@ type World struct {
 	Order map[[2]int]bool
 	// OnViolation receives lock-discipline violations detected inside lock calls.
 	Violations []string
+	// ParkNotify gets a token whenever a goroutine parks; the scheduler uses it
+	// to cut a simulated sleep short at the instant a timer goroutine wakes up.
+	ParkNotify chan struct{}
 }
 
 var cur atomic.Pointer[World]
 
 func NewWorld() *World {
-	return &World{tasks: map[int64]*Task{}, Order: map[[2]int]bool{}, AnonName: func(n int) string { return fmt.Sprintf("bg#%d", n) }}
+	return &World{tasks: map[int64]*Task{}, Order: map[[2]int]bool{}, ParkNotify: make(chan struct{}, 1), AnonName: func(n int) string { return fmt.Sprintf("bg#%d", n) }}
 }
 
 func Install(w *World) { cur.Store(w) }
@@ -171,6 +174,10 @@ func (w *World) park(op Op) *Task {
 	t.parkSeq = w.nextSeq
 	t.Parked = true
 	w.mu.Unlock()
+	select {
+	case w.ParkNotify <- struct{}{}:
+	default:
+	}
 	<-t.wake
 	return t
 }
